@@ -23,7 +23,7 @@ vocabulary mapping abs -> absG, % -> pymod fl, min(.., key=abs) -> minAbs, deque
 append = ++ [.]), Stream(x) / tostream / thub(x, n) -> x, `a <= b` -> `¬ b < a` (total order), 1. -> 1, 0. -> 0,
 `1 / size` with an integer `size` -> `1 / (size : α)`.
 Normalised away: whitespace, comments, docstrings, parentheses, names of local variables and loop targets
-(locals become v1, v2, ...; loop targets el; parameter names are kept — they are part of the signature, c20_sig.py)."""
+(locals and loop targets become v1, v2, ...; parameter names are kept — they are part of the signature, c20_sig.py)."""
 import ast
 import os
 import warnings
